@@ -242,6 +242,36 @@ def shared_intron_world(m_first, with_known):
     return w
 
 
+def islands_world(variant):
+    """a 6-exon '+' gene (all introns GT-AG) whose reads form two disjoint islands (exons 1-3 and exons 4-6): the reference window of a
+       region is the island, annotated introns of a reported known isoform lie outside it; island B also carries a novel isoform
+       (exon 5 skipped).  variant 1: a second gene right at the chromosome start (read region starting at base 1)"""
+    from vlib import worlds as W, syn
+    w = W.base_world(1, 12000)
+    ex = [[2001 + 600 * i, 2200 + 600 * i] for i in range(6)]
+    w["genes"].append({"id": "GI", "chr": "chr1", "strand": "+", "transcripts": [{"id": "TI", "exons": ex}]})
+    if variant == 1:
+        w["genes"].append({"id": "GE", "chr": "chr1", "strand": "+", "transcripts": [{"id": "TE", "exons": [[1, 300], [601, 900], [1201, 1500]]}]})
+    syn.plant_for_transcripts(w)
+    W.add_sites_for_blocks(w, "chr1", [ex[3], ex[5]], "+")
+    W.dedup_sites(w)
+    reads = []
+    for i in range(5):
+        reads.append(W.read_of("ia_%d" % i, "chr1", ex[:3], polya=False))
+        reads.append(W.read_of("ib_%d" % i, "chr1", ex[3:]))
+        reads.append(W.read_of("in_%d" % i, "chr1", [ex[3], ex[5]]))
+        if variant == 1:
+            reads.append(W.read_of("ie_%d" % i, "chr1", [[1, 300], [601, 900], [1201, 1500]]))
+    if variant == 2:
+        # unannotated spliced reads aligned from base 1 of the chromosome
+        e = [[1, 300], [601, 900], [1201, 1500]]
+        W.add_sites_for_blocks(w, "chr1", e, "+")
+        W.dedup_sites(w)
+        reads += [W.read_of("iu_%d" % i, "chr1", e) for i in range(5)]
+    w["reads"] = reads
+    return w
+
+
 def novel_world(swap=False):
     """intergenic novel loci: '+' sites with polyA reads, '-' sites with polyT reads, non-canonical sites with polyA / polyT,
        contradicting evidence ('+' sites with polyT head); the second chromosome carries loci at the SAME coordinates with the
@@ -289,6 +319,9 @@ def pipeline_case(args):
         extra += ["--report_canonical", param[1], "--model_construction_strategy", "all"]
     elif kind == "shared":
         w = None
+    elif kind == "islands":
+        w = islands_world(param[0])
+        extra += ["--report_canonical", param[1], "--model_construction_strategy", "all"]
     elif kind == "mixed":
         # the multi-chromosome world of C06/C10: novel isoforms whose extra exons lie beyond the annotated gene's end (canonical sites
         # planted), novel genes, ISM and mono-exonic reads, multimappers
@@ -420,6 +453,7 @@ def run(ctx):
     n = 3 if quick else 4
     orders = sorted(set(itertools.product("lr", repeat=n)) - {("l",) * n, ("r",) * n})
     jobs = [("anti", o, ctx.scratch) for o in orders] + [("antinovel", (v, lvl), ctx.scratch) for v in (0, 1, 2) for lvl in ("all", "auto")] + \
+        [("islands", (v, lvl), ctx.scratch) for v in (0, 1, 2) for lvl in ("auto", "all")] + \
         [("mixed", (n, lvl), ctx.scratch) for n in ((2,) if quick else (1, 2, 3)) for lvl in ("auto", "all")] + \
         [("shared", (mf, wk, rf, lvl), ctx.scratch) for mf in (0, 1) for wk in (0, 1) for rf in (0, 1) for lvl in ("all", "auto")] + [("novel", lvl + sw, ctx.scratch) for lvl in ("auto", "only_canonical", "only_stranded", "all") for sw in ("", "/swap", "/nopolya")]
     nchecked = 0
